@@ -410,10 +410,7 @@ func RegionsFromGFF(anno gff.GFF, refSeqDegapped string) ([]Region, []int, error
 		tempcds = append(tempcds, r)
 	}
 
-	// get a slide of positions that are not coding based on everything above
-	inter := codes(tempcds, len(refSeqDegapped))
-
-	// then make the final coding regions based on what has a name
+	// make the final coding regions based on what has a name
 	cds := make([]Region, 0)
 	for _, r := range tempcds {
 		if r.Name == "" {
@@ -421,6 +418,11 @@ func RegionsFromGFF(anno gff.GFF, refSeqDegapped string) ([]Region, []int, error
 		}
 		cds = append(cds, r)
 	}
+
+	// then get a slice of the positions that are not in any of the regions that amino acids are annotated for.
+	// Nucleotide changes in an unnamed CDS that no named feature covers have to be reported from here, because
+	// no amino acid record will ever carry them
+	inter := codes(cds, len(refSeqDegapped))
 
 	// sort by start position
 	sort.SliceStable(cds, func(j, k int) bool {
